@@ -81,6 +81,43 @@ def handle (line : String) : String :=
             let r := send (macks'.map Ev.ack ++ [Ev.allSent d.length])
             if showRes r != res then s!"diff xfer-res model={showRes r} impl={res}" else "ok"
     | _, _, _, _ => "skip parse"
+  | ["conc", m, sent, wire, got, res] =>
+    -- several concurrent transfers in one direction, as seen on the wire
+    let parseMsg (x : String) : Option Msg :=
+      match x.splitOn ":" with
+      | [t, f, h] =>
+        match t.toNat?, f.toNat?, parseHex h with
+        | some t, some fl, some d => some ⟨t, ⟨fl / 2 % 2 == 1, fl % 2 == 1, d⟩⟩
+        | _, _, _ => none
+      | _ => none
+    let lst (x : String) : List String := if x == "-" then [] else x.splitOn ","
+    match m.toNat?, (lst sent).mapM parseHex, (lst wire).mapM parseMsg with
+    | some m, some sent, some ms =>
+      let gotL := lst got
+      let resL := lst res
+      if gotL.any (·.startsWith "ERR") then s!"specfail concurrent-transfer-error got={got}"
+      else if resL.any (· != "ok") then s!"specfail concurrent-send-failed res={res}"
+      else
+        match gotL.mapM parseHex with
+        | none => "skip parse"
+        | some gotB =>
+          -- Spec: exactly the sent bundles arrive, each once
+          let sortB (l : List Bytes) := l.toArray.qsort (fun a b => toHex a < toHex b) |>.toList
+          if sortB gotB != sortB sent then
+            s!"specfail concurrent-delivered-differs sent={sent.length} got={gotB.length}"
+          else
+            -- per-transfer trains meet the Spec
+            let tids := (ms.map (·.tid)).eraseDups
+            let bad := tids.filterMap fun k =>
+              let train := (ms.filter (·.tid == k)).map (·.seg)
+              segmentsFail (concatData train) m train
+            match bad with
+            | cls :: _ => s!"specfail {cls} via=concurrent"
+            | [] =>
+              -- correspondence: the model's demultiplexer on the same interleaving
+              let md := (demux [] ms).map (·.2)
+              if md != gotB then s!"diff conc model={md.length} impl={gotB.length}" else "ok"
+    | _, _, _ => "skip parse"
   | ["send", l, script, res] =>
     match l.toNat? with
     | some l =>
